@@ -420,6 +420,18 @@ func c02Diff(ctx *core.Ctx, idx int) core.Result {
 		pid := 0
 		cons, _, shape := c02Consumer(r, ps, false, c02Pre(r, &pid))
 		stmts = append(append([]ast.Node{}, pipeLibrary(false)...), cons...)
+		if r.Chance(1, 4) {
+			// the value of the loops themselves: a function whose whole body is a loop nest (the inner iterator runs
+			// dry on some rounds, then the nest's value is nil for that round) and a loop that only re-yields
+			inner := ast.For{Vars: []string{"u"}, Iters: []ast.Node{icall("fromto", il(0), ast.Binary{Op: "-", L: il(int64(r.Range(1, 3))), R: ast.Binary{Op: "%", L: nm("v"), R: il(3)}})}, Body: ast.Binary{Op: "+", L: ast.Binary{Op: "*", L: nm("v"), R: il(10)}, R: nm("u")}}
+			stmts = append(stmts,
+				ast.Assign{Name: "vnest", Value: ast.FuncLit{Body: ast.For{Vars: []string{"v"}, Iters: []ast.Node{ps[0].Expr()}, Body: inner}}},
+				icall("vnest"),
+				ast.Assign{Name: "vglue", Value: ast.FuncLit{Body: ast.Block{Stmts: []ast.Node{ast.For{Vars: []string{"e"}, Iters: []ast.Node{ps[0].Expr()}, Body: ast.Yield{X: nm("e")}}, ast.Yield{X: ast.IntLit{V: 555}}}}}},
+				ast.Block{Stmts: []ast.Node{ast.Assign{Name: "acc", Value: ast.ArrayLit{}}, ast.For{Vars: []string{"w"}, Iters: []ast.Node{icall("vglue")}, Body: ast.Assign{Name: "acc", Value: ast.Binary{Op: "+", L: nm("acc"), R: ast.ArrayLit{Elems: []ast.Node{nm("w")}}}}}, nm("acc")}},
+				icall("vglue"))
+			shape += "+loop-values"
+		}
 		extra = map[string]any{"consumer_shape": shape}
 	} else {
 		o := gen.DefaultOpts()
